@@ -54,11 +54,11 @@ class Engine:
         self.buf = b""
         os.set_blocking(self.p.stdout.fileno(), False)
 
-    def send(self, line):
+    def send(self, line, newline=True):
         try:
             # "\\xNN" in a generated line stands for the raw byte NN (lines that are not valid UTF-8)
             raw = re.sub(rb"\\x([0-9a-fA-F]{2})", lambda m: bytes([int(m.group(1), 16)]), line.encode())
-            self.p.stdin.write(raw + b"\n")
+            self.p.stdin.write(raw + (b"\n" if newline else b""))
             self.p.stdin.flush()
             return True
         except (BrokenPipeError, OSError):
@@ -142,6 +142,28 @@ def run_script(exe, script, go_timeout=60.0, other_timeout=20.0, grace=10.0):
                 rc, trailing = eng.finish(kind, grace)
                 events.append({"ev": "end", "how": kind, "exit": rc if rc is not None else -1,
                                "alive_after_grace_s": grace if rc is None else 0, "trailing": trailing[:5]})
+                ended = True
+                break
+            if c.get("nonl"):
+                # the last line of the input is not terminated by a newline: the command is sent as it is, stdin is
+                # closed, and everything printed until the process ends belongs to it
+                eng.send(c["text"], newline=False)
+                try:
+                    eng.p.stdin.close()
+                except OSError:
+                    pass
+                lines, st = eng._readlines(go_timeout if kind == "go" else other_timeout)
+                ev = {"ev": "cmd", "kind": kind, "text": c["text"], "out": [tokenise(x) for x in lines], "unterminated": True}
+                for f in ("sp", "start", "hm", "fm", "moves", "go"):
+                    if f in c:
+                        ev[f] = c[f]
+                events.append(ev)
+                try:
+                    rc = eng.p.wait(timeout=grace if st == "eof" else 0.5)
+                except subprocess.TimeoutExpired:
+                    rc = None
+                events.append({"ev": "end", "how": "eof", "exit": rc if rc is not None else -1,
+                               "alive_after_grace_s": grace if rc is None else 0, "trailing": []})
                 ended = True
                 break
             lines, st = eng.command(c["text"], kind, go_timeout if kind == "go" else other_timeout)
